@@ -253,6 +253,7 @@ def shrink_workload(prop, scn, want, deadline, stats, tries: int = 12,
                 c = copy.deepcopy(cand)
                 c['seed'] = (scn['seed'] * 1000003 + stats['attempts']) \
                     % (2 ** 47)
+                c.pop('sched_seed', None)
                 stats['attempts'] += 1
                 hit, res = _attempt(prop, c, None, False, want)
                 if hit:
